@@ -111,7 +111,38 @@ func (tm *TypeMap) structDT(t types.Type) *Datatype {
 	tm.stOf[name] = st
 	tm.stName[name] = key
 	tm.ts.DeclareDT(dt)
+	regMu.Lock()
+	if _, ok := structTypeRegistry[name]; !ok {
+		structTypeRegistry[name] = t
+	}
+	regMu.Unlock()
 	return dt
+}
+
+// structTypeRegistry maps the SMT name of a struct datatype to its Go type, so
+// that a sort recovered from a heap key alone (KeySort) can be declared in
+// whichever term store needs it.
+var structTypeRegistry = map[string]types.Type{}
+
+// declareSorts makes sure every struct datatype mentioned in s is declared in
+// this type map's term store.
+func (tm *TypeMap) declareSorts(s *Sort) {
+	if s == nil {
+		return
+	}
+	if strings.HasPrefix(s.Name, "S_") {
+		if _, ok := tm.dtOf[s.Name]; !ok {
+			regMu.Lock()
+			t, known := structTypeRegistry[s.Name]
+			regMu.Unlock()
+			if known {
+				tm.structDT(t)
+			}
+		}
+	}
+	for _, a := range s.Args {
+		tm.declareSorts(a)
+	}
 }
 
 // FieldKey: heap key of field i of struct type t.
